@@ -792,9 +792,12 @@ pub fn run_status(_args: &Args, mut out: Out) {
         let executor = safina::executor::Executor::new(2, 2).unwrap();
         let cache = temp_dir::TempDir::new().unwrap();
         let permit = permit::Permit::new();
-        let handler = |req: Request| match req.body.is_pending() {
-            true => Response::get_body_and_reprocess(10),
-            false => Response::text(200, "ok"),
+        let handler = |req: Request| match (req.url().path(), req.body.is_pending()) {
+            ("/panic", _) => panic!("scripted handler panic"),
+            ("/busy", _) => Response::text(503, "busy"),
+            ("/teapot", _) => Response::text(418, "teapot"),
+            (_, true) => Response::get_body_and_reprocess(10),
+            (_, false) => Response::text(200, "ok"),
         };
         let (addr, _stopped) = executor
             .block_on(HttpServerBuilder::new().max_conns(20).small_body_len(4).receive_large_bodies(cache.path()).permit(permit.new_sub()).spawn(handler))
@@ -813,6 +816,9 @@ pub fn run_status(_args: &Args, mut out: Out) {
             ("BodyTooLong", b"PUT / HTTP/1.1\r\ncontent-length: 50\r\n\r\n".to_vec()),
             ("Truncated", b"PUT / HTTP/1.1\r\ncontent-length: 3\r\n\r\na".to_vec()),
             ("none", b"GET / HTTP/1.1\r\n\r\n".to_vec()),
+            ("handler-panic", b"GET /panic HTTP/1.1\r\n\r\n".to_vec()),
+            ("handler-503", b"GET /busy HTTP/1.1\r\n\r\n".to_vec()),
+            ("handler-418", b"GET /teapot HTTP/1.1\r\n\r\n".to_vec()),
         ];
         for (what, wire) in wires {
             sid += 1;
